@@ -29,6 +29,7 @@ EXPLANATION = (
   ' (NUL-known) no local is dereferenced at a point where a dominating test has established that it is None and nothing has assigned it since (the test and the dereference would contradict each other);'
   ' (LINT-m) the SCC line pattern lists no literal separators beside an unescaped `.`;'
   ' (LOOP-break) no loop over the items of a collection is left by a branch that does nothing but `break` on a test about the item (end-of-input sentinels, flags set in the loop body and searches whose variable is read afterwards excepted): an item that is to be skipped does not end the processing of the items after it;'
+  + "  (ORD-channel, shared with C08) every call into the decoder state in SccLine.process is dominated by the test that skips words whose channel is not channel 1 (None, the field-2 forms, included);"
 )
 RULE_TEXT = "per table entry, per helper x domain point (aggregated per helper), per word (aggregated), per structural shape"
 UNDECIDED = ["nothing of substance; the glyph choice for six line-drawing/dash extended characters admits light or heavy Unicode forms",
@@ -657,6 +658,9 @@ def check_disassembly_colors(ctx, tables):
 
 
 def run(ctx):
+  # words of other channels / fields never reach the decoder (as in C08)
+  from . import c08 as _c08
+  _c08.check_channel_and_frames(ctx)
   tables = extract_tables(ctx)
   check_tables(ctx, tables)
   order, guarded = check_shapes(ctx)
